@@ -157,7 +157,20 @@ func TestMuxerConcurrent(t *testing.T) {
 			vars    map[string]string
 		}
 		patterns := []string{"/a/{id}", "/a/{id}/b/{name}", "/files/{*path}", "/x/{one}/{two}/{three}", "/plain"}
-		mux.Use(func(h http.Handler) http.Handler { return h })
+		// a middleware mounted with Use runs before routing; like goa's own
+		// Debug and Log middlewares it may ask the muxer for the pattern and
+		// the variables of the request it is about to pass on
+		mwResolves := rapid.Bool().Draw(rt, "middleware-resolves")
+		mux.Use(func(h http.Handler) http.Handler {
+			if !mwResolves {
+				return h
+			}
+			return http.HandlerFunc(func(w http.ResponseWriter, r *http.Request) {
+				b, _ := json.Marshal(obs2{Vars: mux.Vars(r), Resolved: mux.ResolvePattern(r)})
+				w.Header().Set("X-Mw", string(b))
+				h.ServeHTTP(w, r)
+			})
+		})
 		for _, p := range patterns {
 			p := p
 			mux.Handle("GET", p, func(w http.ResponseWriter, r *http.Request) {
@@ -193,13 +206,27 @@ func TestMuxerConcurrent(t *testing.T) {
 			distinct[reqs[i].want.Pattern] = true
 		}
 		got := make([]string, n)
+		gotMw := make([]string, n)
 		parallel(n, func(i int) {
 			w := httptest.NewRecorder()
 			r := httptest.NewRequest("GET", "http://example.com"+reqs[i].path, nil)
 			mux.ServeHTTP(w, r)
 			got[i] = w.Body.String()
+			gotMw[i] = w.Header().Get("X-Mw")
 		})
 		for i := range reqs {
+			if mwResolves {
+				var o obs2
+				if err := json.Unmarshal([]byte(gotMw[i]), &o); err != nil {
+					rt.Fatalf("request %s: middleware observation missing: %q", reqs[i].path, gotMw[i])
+				}
+				want := obs2{Vars: reqs[i].want.Vars, Resolved: reqs[i].want.Resolved}
+				wb, _ := json.Marshal(want)
+				gb, _ := json.Marshal(o)
+				if !bytes.Equal(wb, gb) {
+					rt.Fatalf("request %d %s served concurrently with %d others: the Use-middleware saw %s, want %s", i, reqs[i].path, n-1, gb, wb)
+				}
+			}
 			var o obs2
 			if err := json.Unmarshal([]byte(got[i]), &o); err != nil {
 				rt.Fatalf("request %s: unexpected response %q", reqs[i].path, got[i])
@@ -212,6 +239,9 @@ func TestMuxerConcurrent(t *testing.T) {
 		}
 		stats.Case(fmt.Sprintf("mux|%v", reqs), n >= 4 && len(distinct) >= 2)
 		stats.Class(fmt.Sprintf("muxer:goroutines=%d", n))
+		if mwResolves {
+			stats.Class("muxer:use-middleware-resolves-before-routing")
+		}
 	})
 }
 
